@@ -1,1 +1,503 @@
-"""C05 rule spaces, part 5."""
+"""C05 rule spaces, part 5: rules.fusion (_layer_norm, _rms_normalization, _rotary_embedding, _gqa)."""
+from __future__ import annotations
+
+import numpy as np
+
+from vf.props import c05_spaces as S
+from vf.props.c05_mb import ONNX_DT, fill
+from vf.props.c05_s3 import _w
+from vf.props.c05_spaces import Dim, MB, Skip, Space, arr
+
+INT64_MAX = 9223372036854775807
+
+# ---------------------------------------------------------------------------------------------------
+# LayerNormFusion: Mul(Div|Mul-Reciprocal(x-mean, sqrt(var+eps)), scale) -> LayerNormalization(x, scale)
+# ---------------------------------------------------------------------------------------------------
+_LN_SCALE = {"[D]": [4], "[1,D]": [1, 4], "[]": [], "[S,D]": [3, 4], "[B,S,D]": [2, 3, 4], "[1]": [1], "[S,1]": [3, 1]}
+
+
+def _ln_dims(rule):
+    return [
+        Dim("sq", ["mul", "pow"]), Dim("norm", ["recip-mul", "div"]),
+        Dim("axes", ["[-1]", "[last]", "[-2]", "mean[-1]var[-2]"]),
+        Dim("keepdims", ["1", "absent", "0"]),
+        Dim("eps", ["1e-5", "0.1", "[1]", "[1,1,1]"]),
+        Dim("scale", list(_LN_SCALE)),
+        Dim("dtype", ["f32", "f64"], ["f32", "f64", "f16"]),
+        Dim("xrank", [3, 2, 1]),
+        Dim("scale_order", ["ns", "sn"], cost=1),
+        Dim("scale_src", ["init", "input"], cost=1),
+        Dim("pow_exp", ["2", "2.00001", "2.01", "[2]"], cost=1),
+        S.d_ck(1), S.d_inter(4), S.D_DIMS, S.D_VI, S.d_opset(18, 21, 23),
+    ]
+
+
+def _ln_prune(p, rule):
+    if p["pow_exp"] != "2" and p["sq"] != "pow":
+        return True
+    if p["xrank"] == 1 and p["axes"] in ("[-2]", "mean[-1]var[-2]"):
+        return True
+    if p["xrank"] < 3 and p["scale"] in ("[B,S,D]",) or p["xrank"] < 2 and p["scale"] in ("[S,D]", "[S,1]"):
+        return True
+    if p["eps"] == "[1,1,1]" and p["xrank"] != 3:
+        return True
+    return False
+
+
+def _ln_build(p, rule):
+    dt = p["dtype"]
+    d = S.npd(dt)
+    mb = MB(p["opset"])
+    xs = [2, 3, 4][3 - p["xrank"]:]
+    x = mb.inp("x", dt, S.shp(p, xs))
+    S.bind_like(mb, xs, variants=[{"N": 1, "?0": 1}])
+    r = len(xs)
+    a1 = {"[-1]": [-1], "[last]": [r - 1], "[-2]": [-2], "mean[-1]var[-2]": [-1]}[p["axes"]]
+    a2 = [-2] if p["axes"] == "mean[-1]var[-2]" else a1
+    kd = {} if p["keepdims"] == "absent" else {"keepdims": int(p["keepdims"])}
+    mean = mb.node("ReduceMean", [x, mb.const(arr("i64", a1), "init")], **kd)
+    dev = mb.node("Sub", [x, mean])
+    if p["sq"] == "mul":
+        sq = mb.node("Mul", [dev, dev])
+    else:
+        ev = {"2": np.array(2, dtype=d), "2.00001": np.array(2.00001, dtype=d), "2.01": np.array(2.01, dtype=d),
+              "[2]": np.array([2], dtype=d)}[p["pow_exp"]]
+        sq = mb.node("Pow", [dev, mb.const(ev, "init")])
+    var = mb.node("ReduceMean", [sq, mb.const(arr("i64", a2), "init")], **kd)
+    ev = {"1e-5": np.array(1e-5, dtype=d), "0.1": np.array(0.1, dtype=d), "[1]": np.array([1e-5], dtype=d),
+          "[1,1,1]": np.full([1, 1, 1], 1e-5, dtype=d)}[p["eps"]]
+    eps = mb.const(ev, S.kinds(p, 1)[0], alts=[ev + d(1.0)])
+    vpe = mb.node("Add", [var, eps])
+    std = mb.node("Sqrt", [vpe])
+    if p["norm"] == "div":
+        nrm = mb.node("Div", [dev, std])
+    else:
+        nrm = mb.node("Mul", [dev, mb.node("Reciprocal", [std])])
+    ss = _LN_SCALE[p["scale"]]
+    ss = ss[len(ss) - min(len(ss), r):] if len(ss) > r else ss
+    sv = (_w(dt, ss, salt=4, scale=0.5) + d(1.5)).astype(d)
+    sc = mb.const(sv, "init") if p["scale_src"] == "init" else mb.inp("scale", dt, ss)
+    mb.out(mb.node("Mul", [nrm, sc] if p["scale_order"] == "ns" else [sc, nrm]))
+    S.expose(mb, p, [mean, dev, var, std])
+    return mb
+
+
+def _ln_near(p, rule):
+    return p["axes"] != "[-1]" or p["keepdims"] == "0" or p["scale"] not in ("[D]",) or p["pow_exp"] not in ("2",) \
+        or S.is_nonconst(p) or p["dtype"] == "f16" or p["scale_order"] != "ns" or p["inter"] != "none"
+
+
+def _ln_klass(nd, p, rule):
+    if "scale" in nd and set(nd) <= {"scale", "xrank", "sq", "norm", "eps", "dtype"}:
+        return "scale=" + nd["scale"]
+    if "eps" in nd and set(nd) <= {"eps", "xrank", "sq", "norm", "dtype"}:
+        return "eps=" + nd["eps"]
+    return None
+
+
+S.register(Space("layer_norm", _ln_dims, _ln_build, near=_ln_near, prune=_ln_prune, klass=_ln_klass, accum=True,
+                 max_dev={"thorough": 1}),
+           rule_ids=["fusion._layer_norm.LayerNormFusion"])
+
+
+# ---------------------------------------------------------------------------------------------------
+# LayerNormBiasFusion: LayerNormalization(x, scale) + bias -> LayerNormalization(x, scale, bias)
+# ---------------------------------------------------------------------------------------------------
+_LB_BIAS = {"[D]": [4], "[1,D]": [1, 4], "[]": [], "[S,D]": [3, 4], "[B,S,D]": [2, 3, 4], "[1,1,1,D]": [1, 1, 1, 4],
+            "[S,1]": [3, 1], "[1]": [1]}
+
+
+def _lb_dims(rule):
+    return [
+        Dim("bias", list(_LB_BIAS)),
+        Dim("axis", ["absent", -1, 1, 0, -2]),
+        Dim("outputs", [1, 3, 2]),
+        Dim("has_bias", ["no", "yes"]),
+        Dim("add_order", ["lb", "bl"]),
+        Dim("eps", ["absent", 0.1]), Dim("stash", ["absent", 1]),
+        Dim("dtype", ["f32"], ["f32", "f64", "f16"]),
+        Dim("bias_src", ["init", "input"], cost=1),
+        S.d_inter(1), S.D_DIMS, S.D_VI, S.d_opset(18, 17, 21, 23),
+    ]
+
+
+def _lb_build(p, rule):
+    dt = p["dtype"]
+    d = S.npd(dt)
+    mb = MB(p["opset"])
+    xs = [2, 3, 4]
+    x = mb.inp("x", dt, S.shp(p, xs))
+    S.bind_like(mb, xs, variants=[{"N": 1, "?0": 1}])
+    ax = -1 if p["axis"] == "absent" else p["axis"]
+    nshape = xs[ax % 3:]
+    sc = mb.const((_w(dt, nshape, salt=4, scale=0.5) + d(1.5)).astype(d), "init")
+    ins = [x, sc]
+    if p["has_bias"] == "yes":
+        ins.append(mb.const(_w(dt, nshape, salt=5, scale=1.0), "init"))
+    attrs = {}
+    if p["axis"] != "absent":
+        attrs["axis"] = int(p["axis"])
+    if p["eps"] != "absent":
+        attrs["epsilon"] = float(p["eps"])
+    if p["stash"] != "absent":
+        attrs["stash_type"] = 1
+    outs = mb.node("LayerNormalization", ins, n_out=p["outputs"], **attrs)
+    ln = outs if p["outputs"] == 1 else outs[0]
+    bs = _LB_BIAS[p["bias"]]
+    bv = _w(dt, bs, salt=6, scale=1.0)
+    b = mb.const(bv, "init") if p["bias_src"] == "init" else mb.inp("bias", dt, bs)
+    mb.out(mb.node("Add", [ln, b] if p["add_order"] == "lb" else [b, ln]))
+    if p["outputs"] != 1:
+        for o in outs[1:]:
+            mb.out(o)
+    S.expose(mb, p, [ln])
+    return mb
+
+
+def _lb_near(p, rule):
+    ax = -1 if p["axis"] == "absent" else p["axis"]
+    nshape = [2, 3, 4][ax % 3:]
+    return _LB_BIAS[p["bias"]] != nshape or p["has_bias"] == "yes" or p["add_order"] == "bl" or p["inter"] != "none"
+
+
+def _lb_klass(nd, p, rule):
+    if "bias" in nd and set(nd) <= {"bias", "axis", "bias_src", "dtype"}:
+        return "bias=" + nd["bias"] + ("" if "axis" not in nd else f",axis={nd['axis']}")
+    return None
+
+
+S.register(Space("layer_norm_bias", _lb_dims, _lb_build, near=_lb_near, klass=_lb_klass, accum=True),
+           rule_ids=["fusion._layer_norm.LayerNormBiasFusion"])
+
+
+# ---------------------------------------------------------------------------------------------------
+# RmsNormFusion1/2 -> RMSNormalization (opset 23)
+# ---------------------------------------------------------------------------------------------------
+def _rms_dims(rule):
+    return [
+        Dim("casts", ["none", "both", "first", "last"]),
+        Dim("xdt", ["f32", "f16", "f64"]),
+        Dim("compute", ["f32", "f64", "f16"]),
+        Dim("eps", ["1e-6", "[1]", "0.1"]),
+        Dim("scale", ["[D]", "[]", "[S,D]", "[1,D]"]),
+        Dim("scale_order", ["ns", "sn"]),
+        Dim("red_attrs", ["kd1-noop0", "kd1", "none", "kd0-noop0"]),
+        Dim("axes", ["[-1]", "[last]", "[-2]"]),
+        Dim("pow_exp", ["2", "2.00001", "2.01", "int2"], cost=1),
+        Dim("scale_dt", ["same", "f32"], cost=1),
+        S.d_ck(1), S.d_inter(3), S.D_DIMS, S.D_VI, S.d_opset(23, 18, 21),
+    ]
+
+
+def _rms_prune(p, rule):
+    if p["casts"] == "none" and p["compute"] != "f32":
+        return True
+    if p["casts"] in ("both", "first", "last") and p["compute"] == p["xdt"]:
+        return True
+    return False
+
+
+def _rms_build(p, rule):
+    mb = MB(p["opset"])
+    xdt = p["xdt"]
+    xs = [2, 3, 4]
+    x = mb.inp("x", xdt, S.shp(p, xs))
+    S.bind_like(mb, xs, variants=[{"N": 1, "?0": 1}])
+    cdt = xdt
+    xc = x
+    if p["casts"] in ("both", "first"):
+        cdt = p["compute"]
+        xc = mb.node("Cast", [x], to=int(ONNX_DT[cdt]))
+    d = S.npd(cdt)
+    ev = {"2": np.array(2.0, dtype=d), "2.00001": np.array(2.00001, dtype=d), "2.01": np.array(2.01, dtype=d),
+          "int2": np.array(2, dtype=np.int64)}[p["pow_exp"]]
+    sq = mb.node("Pow", [xc, mb.const(ev, "init")])
+    ra = {"kd1-noop0": {"keepdims": 1, "noop_with_empty_axes": 0}, "kd1": {"keepdims": 1}, "none": {},
+          "kd0-noop0": {"keepdims": 0, "noop_with_empty_axes": 0}}[p["red_attrs"]]
+    axes = {"[-1]": [-1], "[last]": [2], "[-2]": [-2]}[p["axes"]]
+    ms = mb.node("ReduceMean", [sq, mb.const(arr("i64", axes), "init")], **ra)
+    epsv = {"1e-6": np.array(1e-6, dtype=d), "[1]": np.array([1e-6], dtype=d), "0.1": np.array(0.1, dtype=d)}[p["eps"]]
+    eps = mb.const(epsv, S.kinds(p, 1)[0], alts=[epsv + d(1.0)])
+    rms = mb.node("Sqrt", [mb.node("Add", [ms, eps])])
+    rec = mb.node("Reciprocal", [rms])
+    nrm = mb.node("Mul", [xc, rec])
+    odt = cdt
+    if p["casts"] in ("both", "last"):
+        odt = xdt if p["casts"] == "both" else p["compute"]
+        nrm = mb.node("Cast", [nrm], to=int(ONNX_DT[odt]))
+    sdt = odt
+    ss = {"[D]": [4], "[]": [], "[S,D]": [3, 4], "[1,D]": [1, 4]}[p["scale"]]
+    sc = mb.const((_w(sdt, ss, salt=4, scale=0.5) + S.npd(sdt)(1.5)).astype(S.npd(sdt)), "init")
+    mb.out(mb.node("Mul", [nrm, sc] if p["scale_order"] == "ns" else [sc, nrm]))
+    S.expose(mb, p, [sq, ms, rec])
+    return mb
+
+
+def _rms_near(p, rule):
+    want = "ns" if rule["id"].endswith("1") else "sn"
+    return p["scale_order"] != want or p["axes"] != "[-1]" or p["red_attrs"] != "kd1-noop0" or p["pow_exp"] != "2" \
+        or p["scale"] != "[D]" or S.is_nonconst(p) or p["opset"] < 23 or p["inter"] != "none"
+
+
+def _rms_klass(nd, p, rule):
+    nd = {k: v for k, v in nd.items() if k != "scale_order"}
+    if "opset" in nd and nd["opset"] < 23 and set(nd) <= {"opset", "casts", "xdt", "compute"}:
+        return "opset<23"
+    return ",".join(f"{k}={v}" for k, v in nd.items()) or "default"
+
+
+_RMS = S.register(Space("rms_norm", _rms_dims, _rms_build, near=_rms_near, prune=_rms_prune, klass=_rms_klass, accum=True,
+                        max_dev={"thorough": 1}),
+                  rule_ids=["fusion._rms_normalization.RmsNormFusion1", "fusion._rms_normalization.RmsNormFusion2"])
+
+
+# ---------------------------------------------------------------------------------------------------
+# RotaryEmbedding23: x*cos + rotate_half(x)*sin -> RotaryEmbedding(x, Cos(freqs), Sin(freqs))
+# ---------------------------------------------------------------------------------------------------
+def _ro_dims(rule):
+    return [
+        Dim("D", [4, 6, 5, 2]),
+        Dim("unsq", ["[1],[1]", "[0],[1]", "[1],[2]", "1,1"]),
+        Dim("split", ["half", "start2+1", "end1-1", "start1=1"]),
+        Dim("end2", ["D", "MAX", "D-1"]),
+        Dim("freqs", ["[B,S,h]", "[1,S,h]", "[S,h]"]),
+        Dim("slice_axes", ["[3]", "[-1]"]),
+        Dim("concat_axis", [-1, 3]),
+        Dim("dtype", ["f32"], ["f32", "f16", "f64"]),
+        Dim("heads", ["static", "symbolic"], cost=1),
+        Dim("orders", ["default", "cos-first", "rot-first"], cost=1),
+        S.d_ck(4), S.d_inter(2), S.D_DIMS, S.D_VI, S.d_opset(23, 18, 21),
+    ]
+
+
+def _ro_build(p, rule):
+    dt = p["dtype"]
+    mb = MB(p["opset"])
+    B, H, Sq, D = 2, 3, 2, p["D"]
+    h = D // 2
+    xs = [B, H, Sq, D]
+    xdecl = S.shp(p, xs)
+    if p["heads"] == "symbolic":
+        xdecl[1] = "H"
+    x = mb.inp("x", dt, xdecl)
+    S.bind_like(mb, xs)
+    mb.bindings[0]["H"] = H
+    fshape = {"[B,S,h]": [B, Sq, D - h], "[1,S,h]": [1, Sq, D - h], "[S,h]": [Sq, D - h]}[p["freqs"]]
+    if D % 2:
+        raise Skip("odd head size cannot be covered by Concat(freqs, freqs)")
+    freqs = mb.inp("freqs", dt, fshape)
+    fr = mb.node("Concat", [freqs, freqs], axis=-1)
+    cos = mb.node("Cos", [fr])
+    sin = mb.node("Sin", [fr])
+    k = S.kinds(p, 4)
+    u = p["unsq"]
+    if u == "1,1":
+        o1 = mb.const(arr("i64", 1), k[0])
+        o2 = mb.const(arr("i64", 1), "init")
+    else:
+        a, b = u.split("],[")
+        o1 = mb.const(arr("i64", [int(a.strip("[]"))]), k[0], alts=[arr("i64", [0])])
+        o2 = mb.const(arr("i64", [int(b.strip("[]"))]), "init")
+    cos4 = mb.node("Unsqueeze", [cos, o1])
+    sin4 = mb.node("Unsqueeze", [sin, o2])
+    s1, e1, s2 = 0, h, h
+    if p["split"] == "start2+1":
+        s2 = h + 1
+    elif p["split"] == "end1-1":
+        e1 = h - 1
+    elif p["split"] == "start1=1":
+        s1 = 1
+    e2 = {"D": D, "MAX": INT64_MAX, "D-1": D - 1}[p["end2"]]
+    axv = [3] if p["slice_axes"] == "[3]" else [-1]
+    axc = mb.const(arr("i64", axv), "init")
+    one = mb.const(arr("i64", [1]), "init")
+    x1 = mb.node("Slice", [x, mb.const(arr("i64", [s1]), k[1], alts=[arr("i64", [1])]), mb.const(arr("i64", [e1]), k[2], alts=[arr("i64", [max(e1 - 1, 1)])]), axc, one])
+    x2 = mb.node("Slice", [x, mb.const(arr("i64", [s2]), k[3], alts=[arr("i64", [max(s2 - 1, 0)])]), mb.const(arr("i64", [e2]), "init"), axc, one])
+    neg = mb.node("Neg", [x2])
+    rot = mb.node("Concat", [neg, x1], axis=p["concat_axis"])
+    o = p["orders"]
+    t1 = mb.node("Mul", [x, cos4] if o != "cos-first" else [cos4, x])
+    t2 = mb.node("Mul", [rot, sin4])
+    mb.out(mb.node("Add", [t1, t2] if o != "rot-first" else [t2, t1]))
+    S.expose(mb, p, [rot, cos4])
+    return mb
+
+
+def _ro_near(p, rule):
+    return p["unsq"] != "[1],[1]" or p["split"] != "half" or p["end2"] == "D-1" or S.is_nonconst(p) or p["heads"] != "static" \
+        or p["freqs"] != "[B,S,h]"
+
+
+S.register(Space("rotary_embedding", _ro_dims, _ro_build, near=_ro_near, max_dev={"thorough": 1}),
+           rule_ids=["fusion._rotary_embedding.RotaryEmbedding23"])
+
+
+# ---------------------------------------------------------------------------------------------------
+# PartialRotaryEmbedding23Fusion: Concat(RotaryEmbedding(x[..., :e]), x[..., e:]) -> RotaryEmbedding(x, rotary_embedding_dim=e)
+# ---------------------------------------------------------------------------------------------------
+def _pr_dims(rule):
+    return [
+        Dim("e1", [4, 2, 8, 6]),
+        Dim("s2", ["=e1", "e1+1", "e1-1"]),
+        Dim("interleaved", ["absent", 0, 1]),
+        Dim("red", ["absent", "set"]),
+        Dim("num_heads", ["absent", "set"]),
+        Dim("xrank", [4, 3]),
+        Dim("pos_ids", ["absent", "given"]),
+        Dim("start1", ["[0]", "[1]"]), Dim("end2", ["MAX", "D"]),
+        Dim("concat_axis", [-1, 3]),
+        Dim("dtype", ["f32"], ["f32", "f16"]),
+        S.d_ck(2), S.d_inter(3), S.D_DIMS, S.D_VI, S.d_opset(23, 21),
+    ]
+
+
+def _pr_prune(p, rule):
+    if p["xrank"] == 3 and (p["num_heads"] != "set" or p["concat_axis"] == 3):
+        return True
+    if p["e1"] == 8 and p["s2"] == "e1+1":
+        return True
+    return False
+
+
+def _pr_build(p, rule):
+    dt = p["dtype"]
+    mb = MB(p["opset"])
+    B, H, Sq, D = 2, 3, 2, 8
+    e1 = p["e1"]
+    s2 = {"=e1": e1, "e1+1": e1 + 1, "e1-1": e1 - 1}[p["s2"]]
+    if p["xrank"] == 4:
+        xs = [B, H, Sq, D]
+        axv = [3]
+    else:
+        raise Skip("pattern slices axis 3: 3-D input cannot match")
+    x = mb.inp("x", dt, S.shp(p, xs))
+    S.bind_like(mb, xs)
+    k = S.kinds(p, 2)
+    axc = mb.const(arr("i64", axv), "init")
+    one = mb.const(arr("i64", [1]), "init")
+    st1 = mb.const(arr("i64", [0] if p["start1"] == "[0]" else [1]), "init")
+    p1 = mb.node("Slice", [x, st1, mb.const(arr("i64", [e1]), k[0], alts=[arr("i64", [max(e1 - 2, 2)])]), axc, one])
+    en2 = mb.const(arr("i64", [INT64_MAX] if p["end2"] == "MAX" else [D]), "init")
+    p2 = mb.node("Slice", [x, mb.const(arr("i64", [s2]), k[1], alts=[arr("i64", [max(s2 - 2, 0)])]), en2, axc, one])
+    red = e1 - (1 if p["start1"] == "[1]" else 0)
+    rdim = red if p["red"] == "absent" else max(2, red - 2)
+    hh = rdim // 2
+    if p["pos_ids"] == "given":
+        cos = mb.inp("cos", dt, [5, hh])
+        sin = mb.inp("sin", dt, [5, hh])
+        pos = mb.inp("pos", "i64", [B, Sq], values=[np.array([[0, 1], [2, 4]], dtype=np.int64)])
+        ins = [p1, cos, sin, pos]
+    else:
+        cos = mb.inp("cos", dt, [B, Sq, hh])
+        sin = mb.inp("sin", dt, [B, Sq, hh])
+        ins = [p1, cos, sin]
+    attrs = {}
+    if p["interleaved"] != "absent":
+        attrs["interleaved"] = int(p["interleaved"])
+    if p["red"] == "set":
+        attrs["rotary_embedding_dim"] = rdim
+    if p["num_heads"] == "set":
+        attrs["num_heads"] = H
+    rope = mb.node("RotaryEmbedding", ins, **attrs)
+    mb.out(mb.node("Concat", [rope, p2], axis=p["concat_axis"]))
+    S.expose(mb, p, [p1, rope, p2])
+    return mb
+
+
+def _pr_near(p, rule):
+    return p["s2"] != "=e1" or p["interleaved"] == 1 or p["red"] == "set" or p["start1"] != "[0]" or S.is_nonconst(p) \
+        or p["inter"] != "none"
+
+
+S.register(Space("partial_rotary_embedding", _pr_dims, _pr_build, near=_pr_near, prune=_pr_prune, max_dev={"thorough": 1}),
+           rule_ids=["fusion._rotary_embedding.PartialRotaryEmbedding23Fusion"])
+
+
+# ---------------------------------------------------------------------------------------------------
+# ONNXGQA: Attention over Concat/Unsqueeze/Expand/Reshape'd key & value -> Attention with past inputs
+# ---------------------------------------------------------------------------------------------------
+def _gq_dims(rule):
+    return [
+        Dim("heads", ["4/2", "2/2", "4/1", "4/4"]),
+        Dim("P", [2, 1]), Dim("S", [3, 1]),
+        Dim("mask", ["absent", "float", "bool"]),
+        Dim("causal", ["absent", 1]),
+        Dim("scale", ["absent", 0.5]),
+        Dim("unsq", ["[2]", "scalar2", "[1]"]),
+        # how the key heads are replicated: as GQA needs (repeat-interleave), tiled (head order differs), via a
+        # value-side mistake (value replicated with the other layout)
+        Dim("expand", ["interleave", "tile", "value-tiled"]),
+        Dim("vd", ["same", "differs"]),
+        Dim("dtype", ["f32"], ["f32", "f16"]),
+        Dim("outs", ["all", "attn-only"], cost=1),
+        S.d_ck(2), S.d_inter(2), S.D_DIMS, S.D_VI, S.d_opset(23, 24),
+    ]
+
+
+def _gq_prune(p, rule):
+    if p["expand"] != "interleave" and p["unsq"] != "[2]":
+        return True
+    return False
+
+
+def _gq_build(p, rule):
+    dt = p["dtype"]
+    mb = MB(p["opset"])
+    H, Hkv = [int(v) for v in p["heads"].split("/")]
+    G = H // Hkv
+    B, Sq, P, D = 2, p["S"], p["P"], 4
+    Dv = D if p["vd"] == "same" else 6
+    T = Sq + P
+    q = mb.inp("q", dt, S.shp(p, [B, H, Sq, D]))
+    kk = mb.inp("k", dt, S.shp(p, [B, Hkv, Sq, D]))
+    v = mb.inp("v", dt, S.shp(p, [B, Hkv, Sq, Dv]))
+    pk = mb.inp("pk", dt, S.shp(p, [B, Hkv, P, D]))
+    pv = mb.inp("pv", dt, S.shp(p, [B, Hkv, P, Dv]))
+    S.bind_like(mb, [B])
+    kinds = S.kinds(p, 2)
+
+    def rep(past, cur, dd, layout, kind):
+        present = mb.node("Concat", [past, cur], axis=-2)
+        if p["unsq"] == "scalar2":
+            axc = mb.const(arr("i64", 2), "init")
+        else:
+            axc = mb.const(arr("i64", [2] if (p["unsq"] == "[2]" and layout == "interleave") else [1]), "init")
+        un = mb.node("Unsqueeze", [present, axc])
+        if layout == "interleave" and p["unsq"] != "[1]":
+            eshape = [B, Hkv, G, T, dd]
+        else:
+            eshape = [B, G, Hkv, T, dd]
+        ex = mb.node("Expand", [un, mb.const(arr("i64", eshape), kind, alts=[arr("i64", eshape)])])
+        full = mb.node("Reshape", [ex, mb.const(arr("i64", [B, H, T, dd]), "init")])
+        return present, full
+    klayout = "interleave" if p["expand"] in ("interleave", "value-tiled") else "tile"
+    vlayout = "interleave" if p["expand"] == "interleave" else "tile"
+    pkey, kfull = rep(pk, kk, D, klayout, kinds[0])
+    pval, vfull = rep(pv, v, Dv, vlayout, kinds[1])
+    ins = [q, kfull, vfull]
+    if p["mask"] == "float":
+        ins.append(mb.inp("mask", dt, [Sq, T]))
+    elif p["mask"] == "bool":
+        m = np.ones([Sq, T], dtype=bool)
+        m[0, T - 1] = False
+        ins.append(mb.inp("mask", "bool", [Sq, T], values=[m]))
+    attrs = {}
+    if p["causal"] != "absent":
+        attrs["is_causal"] = 1
+    if p["scale"] != "absent":
+        attrs["scale"] = float(p["scale"])
+    att = mb.node("Attention", ins, **attrs)
+    mb.out(att)
+    if p["outs"] == "all":
+        mb.out(pkey)
+        mb.out(pval)
+    S.expose(mb, p, [kfull, vfull])
+    return mb
+
+
+def _gq_near(p, rule):
+    return p["expand"] != "interleave" or p["unsq"] != "[2]" or p["vd"] != "same" or S.is_nonconst(p)
+
+
+S.register(Space("gqa", _gq_dims, _gq_build, near=_gq_near, prune=_gq_prune, accum=True, max_dev={"thorough": 1}),
+           rule_ids=["fusion._gqa.ONNXGQA"])
